@@ -363,6 +363,22 @@ pub fn run(ctx: &Ctx) {
     });
     ctx.space("split/join: a^n · c · tail, n in the boundary set, c in 8 characters, 73 tails", (cases.len() * tails.len()) as u64 + 1, "complete");
     ctx.violations(check_split(""));
+    {
+        let lens: Vec<usize> = (0..=800).collect();
+        par_shards(ctx, &lens, |n, t: &mut Tally| {
+            for s in [format!("{}€", "a".repeat(*n)), format!("{}é{}", "b".repeat(n / 2), "c".repeat(n - n / 2)), "é".repeat(*n)] {
+                t.evals += 1;
+                if s.len() >= 254 {
+                    t.nontrivial += 1;
+                }
+                let f = check_split(&s);
+                if !f.is_empty() {
+                    ctx.violations(f);
+                }
+            }
+        });
+        ctx.space("split/join: every length 0..=800 with a multi-byte character at the end, in the middle, and all multi-byte", 801 * 3, "complete");
+    }
     ctx.sample(json!({"kind": "split", "s": format!("{}é😀", "a".repeat(253))}));
     // space 2: attribute maps
     let keys = ["k", "K", "kk"];
